@@ -365,6 +365,10 @@ def run(rec, cfg):
     rec.accept = {"layout"}
     attach_layout("C18")
     rng = cfg.rng("c18")
+    from ..workloads import interrupted as _INT
+
+    if cfg.shard == 6 % cfg.nshards:
+        _INT.layout_cases(rec, "C18")
     nmax = cfg.scale(9, 12)
     idx = 0
     for s in W9.all_shapes_upto(nmax):
@@ -468,6 +472,11 @@ def run(rec, cfg):
 
 
 def replay(rec, cfg, w):
+    if "failpoint" in w:
+        from ..workloads import interrupted as _INT
+
+        _INT.layout_cases(rec, "C18")      # deterministic: the whole family of cases is run again
+        return
     attach_layout("C18")
     s = W9.parse_shape(w["shape"])
     ids = w.get("ids", "fresh")
